@@ -619,6 +619,12 @@ impl<'g> Exec<'g> {
                             }),
                             _ => None,
                         },
+                        DocSpec::Deep { depth, obj_every } => Some(Doc {
+                            var: deep_doc(*depth, *obj_every),
+                            tainted: false,
+                            shared: false,
+                            realloc: false,
+                        }),
                         DocSpec::ResultOf(id) => results.get(id).map(|(v, t)| {
                             self.stats.bump("probe.result_fed_back");
                             Doc {
@@ -635,6 +641,7 @@ impl<'g> Exec<'g> {
                         DocSpec::Compose { .. } => 1,
                         DocSpec::Sub { .. } => 2,
                         DocSpec::ResultOf(_) => 3,
+                        DocSpec::Deep { .. } => 4,
                     });
                     let txt = match &built {
                         Some(b) => format!("newdoc d{} = {:?} tainted={}", d, b.var, b.tainted),
@@ -810,6 +817,7 @@ impl<'g> Exec<'g> {
             Compose { obj: bool, parts: Vec<usize> },
             Sub { of: usize, idx: usize },
             ResultOf(u64),
+            Deep { depth: usize, obj_every: usize },
         }
         struct SDef {
             i: usize,
@@ -862,6 +870,10 @@ impl<'g> Exec<'g> {
                             _ => None,
                         },
                         DocSpec::ResultOf(id) => Some(DDef::ResultOf(*id)),
+                        DocSpec::Deep { depth, obj_every } => Some(DDef::Deep {
+                            depth: *depth,
+                            obj_every: *obj_every,
+                        }),
                     };
                     dslot[d] = def.map(|df| {
                         ddefs.push(df);
@@ -947,6 +959,7 @@ impl<'g> Exec<'g> {
                         let (p, t) = self.build(*of, depth + 1)?;
                         sub_child(&p, *idx).map(|c| (Rcvar::new(Variable::Array(vec![c.clone(), c])), t))
                     }
+                    DDef::Deep { depth, obj_every } => Some((deep_doc(*depth, *obj_every), false)),
                     DDef::ResultOf(id) => {
                         let s = &self.sdefs[*self.by_id.get(id)?];
                         let (res, t) = self.eval_quiet(s, depth + 1)?;
@@ -1075,6 +1088,21 @@ fn compile_class(dbg: &str) -> u64 {
     } else {
         hs("Panic")
     }
+}
+
+/// `depth` nested containers around the number 7, built bottom-up (no recursion).
+pub fn deep_doc(depth: usize, obj_every: usize) -> Rcvar {
+    let mut v = Rcvar::new(Variable::Number(serde_json::Number::from(7)));
+    for level in 0..depth.min(400) {
+        v = if obj_every != 0 && level % obj_every == obj_every - 1 {
+            let mut m = BTreeMap::new();
+            m.insert("a".to_string(), v);
+            Rcvar::new(Variable::Object(m))
+        } else {
+            Rcvar::new(Variable::Array(vec![v]))
+        };
+    }
+    v
 }
 
 const KEYNAMES: &[&str] = &["a", "b", "xs", "c"];
